@@ -7,15 +7,18 @@ import (
 
 	gmqtt "github.com/DrmagicE/gmqtt"
 	"github.com/DrmagicE/gmqtt/persistence/subscription"
+	"github.com/DrmagicE/gmqtt/persistence/unack"
 	unackmem "github.com/DrmagicE/gmqtt/persistence/unack/mem"
+	unackredis "github.com/DrmagicE/gmqtt/persistence/unack/redis"
 	"github.com/DrmagicE/gmqtt/pkg/codes"
 	"github.com/DrmagicE/gmqtt/pkg/packets"
+	"github.com/DrmagicE/gmqtt/zzredis"
 	"github.com/DrmagicE/gmqtt/zzrt"
 )
 
 // ZZ_C04_History: K inbound packets with symbolic 16-bit identifiers (the solver decides
 // which coincide) against the real publishHandler / pubrelHandler and the real memory
-// unack store; ghost set G = identifiers received and not yet released.
+// unack store (memory or redis); ghost set G = identifiers received and not yet released.
 func ZZ_C04_History() {
 	K := zzrt.Param("K")
 	srv := defaultServer()
@@ -23,7 +26,18 @@ func ZZ_C04_History() {
 	if zzrt.ConcreteBool(zzrt.Bool()) {
 		ver = packets.Version5
 	}
-	store := unackmem.New(unackmem.Options{ClientID: "c1"})
+	// the identifier store: memory, or the real redis store over the zzredis stand-in
+	// (then a reconnect may also be a broker restart: a fresh store object over the same data)
+	backend := zzrt.Choice(zzrt.Param("BACKENDS"))
+	rst := zzredis.NewStore()
+	mkStore := func() unack.Store {
+		if backend == 0 {
+			return unackmem.New(unackmem.Options{ClientID: "c1"})
+		}
+		return unackredis.New(unackredis.Options{ClientID: "c1", Pool: zzredis.NewPool(rst)})
+	}
+	store := mkStore()
+	zzrt.Observe("backend", backend)
 	c := &client{server: srv, version: ver, unackStore: store, out: make(chan packets.Packet, 8), close: make(chan struct{}),
 		opts: &ClientOptions{ClientID: "c1", RetainAvailable: true}}
 	delivered := 0
@@ -108,6 +122,12 @@ func ZZ_C04_History() {
 			zzrt.Assert(delivered == before+1, "qos1-always-delivered")
 		case 3: // the connection is cut and the client reconnects
 			clean := zzrt.ConcreteBool(zzrt.Bool())
+			if backend == 1 && zzrt.Choice(2) == 1 {
+				// the broker was restarted in between
+				store = mkStore()
+				c.unackStore = store
+				zzrt.Cover("restart")
+			}
 			zzrt.Assert(store.Init(clean) == nil, "init-ok")
 			if clean {
 				G = nil
